@@ -133,6 +133,9 @@ pub fn render(c: &Cell) -> Rendered {
     if c.kind == "param" {
         params.push(format!("b: {}", syntax(&c.d)));
     }
+    if c.v == "ixptr" {
+        params.push("pi: &usize".to_string());
+    }
     let needs_sp2 = c.ctx == "assign" && c.et.first().map(|s| s.as_str()) == Some("sptr");
     if needs_sp2 {
         params.push(format!("sp2: {}", syntax(&c.et)));
@@ -222,7 +225,7 @@ pub fn render(c: &Cell) -> Rendered {
     let mut r = format!("{}b", "&".repeat(c.k));
     for s in &c.path {
         if s == "i" {
-            r.push_str("[1usize]");
+            r.push_str(if c.v == "ixptr" { "[pi]" } else { "[1usize]" });
         } else {
             r.push('.');
             r.push_str(s);
